@@ -228,6 +228,21 @@ def gen_cases(tier: str, seed: int) -> List[Dict]:
             b = S.many_names_spec("b", nn, ub, (), rng, 2, maxexp=1)
             n += 1
             cases.append({"id": "%s-%03d-pair-manynames%d" % (PROP, n, nn), "op": "compare", "operands": [a, b], "options": opt, "limits": lim})
+    # views (no data of their own) of operands storing the same terms, one of them with an all-zero term where the other is not zero
+    for opt in settings[1::2]:
+        for view in ("T", "rev", "cyc"):
+            ex = [[0, 0], [1, 0], [0, 1]]
+            a = S.make_poly_spec("a", ("q0", "q1"), ex, (2, 2), rng, 2, mode="raw", zero_prob=0.0, literal_prob=0.5)
+            b = S.make_poly_spec("b", ("q0", "q1"), ex, (2, 2), rng, 2, mode="raw", zero_prob=0.0, literal_prob=0.5)
+            for sp in (a, b):
+                sp.pop("pre", None)
+                order = sorted(range(3), key=lambda i: ex.index(sp["exps"][i]))
+                sp["exps"] = [sp["exps"][i] for i in order]
+                sp["slots"] = [sp["slots"][i] for i in order]
+            a["slots"][1] = [0, 0, 0, 0]
+            a["view"], b["view"] = view, view
+            n += 1
+            cases.append({"id": "%s-%03d-pair-views-zeroterm" % (PROP, n), "op": "compare", "operands": [a, b], "options": opt, "limits": lim})
     # literal pairs that graded and ungraded orders decide differently (q0**2 against q1; q0*q1 against q2): one path each
     for opt in settings:
         for nm, ea, eb in ((("q0", "q1"), [[2, 0]], [[0, 1]]), (("q0", "q1", "q2"), [[1, 1, 0], [0, 0, 0]], [[0, 0, 1]])):
